@@ -73,6 +73,17 @@ def val(e, v):
     return v
 
 
+def trade_enabled_goal(e, p):
+    """on a successful path every recorded OracleAccessor::is_trade_enabled call returned Ok(true) (C14: trading is refused before the trade-enable time)"""
+    rets = [ev[2] for ev in p.trace if ev[0] == 'ret' and re.search(r'OracleAccessor::<.*>::is_trade_enabled$', ev[1])]
+    conds = []
+    for rv in rets:
+        v = rv.fields[0] if isinstance(rv, E) and rv.fields else rv
+        if isinstance(v, B): conds.append(v.t)
+        else: return None, 0
+    return (T.and_(*conds) if conds else None), len(conds)
+
+
 def two_hop_task(v2):
     def task(ctx):
         fn = 'instructions::v2::two_hop_swap::handler' if v2 else 'instructions::two_hop_swap::handler'
@@ -115,6 +126,8 @@ def two_hop_task(v2):
             if not ok_shape: continue
             order = [ev[1] for ev in p.trace if ev[0] == 'call' and (re.search(swap_rx, ev[1]) or re.search(upd_rx, ev[1]))]
             ob(f'path{i}:updates_after_both_swaps', p.pc, TRUE if all(re.search(swap_rx, x) for x in order[:2]) else FALSE)
+            tg, ntg = trade_enabled_goal(e, p)
+            ob(f'path{i}:trade_enabled_checked_for_both_pools', p.pc, tg if (tg is not None and ntg == 2) else FALSE, f'{ntg} is_trade_enabled results on the path')
             ob(f'path{i}:pools_distinct', p.pc, T.not_(T.cmp('=', k1, k2)))
             out_mint_1 = T.ite(sym['a2b1'], w1.get('token_mint_b').t, w1.get('token_mint_a').t)
             in_mint_2 = T.ite(sym['a2b2'], w2.get('token_mint_a').t, w2.get('token_mint_b').t)
@@ -235,6 +248,8 @@ def single_task(v2):
             ok_shape = len(sw) == 1 and len(up) == 1
             ob(f'path{i}:one_swap_then_one_update', p.pc, TRUE if ok_shape else FALSE, f'{len(sw)} swaps, {len(up)} updates')
             if not ok_shape: continue
+            tg, ntg = trade_enabled_goal(e, p)
+            ob(f'path{i}:trade_enabled_checked', p.pc, tg if (tg is not None and ntg == 1) else FALSE, f'{ntg} is_trade_enabled results on the path')
             a = sw[0]
             def arg(j): return H.snapshot(e, a[2][j + off if j >= 1 else 0])
             ob(f'path{i}:arguments_passed_through', p.pc,
